@@ -529,7 +529,7 @@ struct Run {
         }
         full_compare("end of history");
         if (c.decides(SHAPE)) check_shape_now("end of history");
-        if (c.decides(ITER) || c.decides(NEAR)) { c.op("final walk x2"); do_walk(-1, false, true); do_walk(-1, true, true); }
+        if (walks) { c.op("final walk x2"); do_walk(-1, false, true); do_walk(-1, true, true); }
         if (retain) { for (auto &r : kept) (void)r; copies_outlived += (int)kept.size(); }
         verify_kept(false);
         bool nonempty = !m.empty();
